@@ -1745,6 +1745,11 @@ public:
     crab::ScopedCrabStats __st__(domain_name() +
                                  ".to_linear_constraint_system");
 
+    if (is_bottom()) {
+      // _impl of a value made by set_to_bottom() is top
+      return linear_constraint_system_t(linear_constraint_t::get_false());
+    }
+
     // Collect the visible terms
     rev_map_t rev_map;
     std::vector<std::pair<variable_t, variable_t>> equivs;
